@@ -643,7 +643,7 @@ PROPS = {
         "lean_modules": ["Dbg.Props.C19", "Dbg.Props.C19b"],
         "theorems": ["Graph.C19_index_unique", "Graph.C19_queries_determined", "Graph.C19_search_exact", "Graph.searchKmer_exact",
                      "Boom.C19_boom_exact", "Boom.C19_builders_agree", "Boom.get_exact", "Boom.get_no_panic", "Boom.slots_of_keyIds",
-                     "Boom.C19_finish_exact", "Boom.C19_finish_eq_search", "Boom.create_spec", "Boom.settle_spec", "Boom.createLoop_spec", "Boom.layoutOK_of_perm"],
+                     "Boom.C19_finish_exact", "Boom.C19_finish_eq_search", "Boom.C19_finish_no_panic", "Boom.create_spec", "Boom.settle_spec", "Boom.createLoop_spec", "Boom.layoutOK_of_perm"],
         "partial": ["proved for every hash function a builder may produce (a universally quantified parameter of the BoomHashMap model, arbitrary on absent keys): if the slots hold the pairs (terminal k-mer of node i, i) in the order that function dictates, every lookup is exact and any two builders agree (C19_builders_agree). create_map (the cycle sort) is modelled too and proved to terminate, to permute the pairs and to leave each in its slot for every function that is a minimal perfect hash on the node ends (C19_finish_exact: finish/finish_serial give exact lookups above Mphf). That the function boomphf's Mphf construction returns is minimal perfect on the inserted keys under every thread schedule is not provable in a model of this crate: its consequences (slots, layout) are evaluated on the real maps' slot layout (hook verif_index_layout) after every run (1-16 threads, repeated runs, 10^5-node graphs)"],
         "n_quick": 1500, "n_thorough": 60000,
         "nontrivial": lambda toks, impl: impl.startswith("same=1") or ("same=1" in impl and toks[5].count(",") >= 1), "tags": _c19_tags,
